@@ -81,6 +81,7 @@ class WildGen:
             serialize_p=0.0,           # probability that a class declares the serialize() / serializable() marker
             ns_namesakes=0.0,          # probability that a namespace takes the name of a namespace with another parent
             typedef_repeats_listed=0.25,   # probability that a typedef's arguments are a combination of the template's lists
+            clone_templates=0.0,       # probability that a templated class is followed by a copy under another name
             inst_namesakes=0.0,        # probability that an instantiation list holds two arguments of one simple name
             enum_namesakes=0.0,        # probability that an enum takes the name of an enum of another scope
             overloads=0.0,             # probability that a method / static method reuses an earlier name of its class
@@ -106,7 +107,9 @@ class WildGen:
     SPECIAL = ['lambda', 'def', 'in', 'is', 'from', 'global', 'pass', 'del', 'raise', 'import', 'as', 'with',
                'yield', 'None', 'True', 'False', 'elif', 'except', 'finally', 'nonlocal', 'and', 'or', 'not',
                'svg', 'png', 'jpeg', 'html', 'javascript', 'markdown', 'latex', 'print', 'serialize',
-               'serializable', 'insert', 'pickle', 'printx', 'Print', 'lambda_']
+               'serializable', 'insert', 'pickle', 'printx', 'Print', 'lambda_',
+               # names the MATLAB generator uses itself for the serialization support
+               'string_serialize', 'string_deserialize']
 
     def member_name(self, upper=False, role='method'):
         if self.r.random() < self.f['special_names']:
@@ -333,7 +336,7 @@ class WildGen:
             kinds.append('enum')
         for _ in range(r.randint(0, self.k.members)):
             k = r.choice(kinds)
-            mt = self.template(True) if (self.f['templates'] and self.f['member_templates']
+            mt = self.template(True if r.random() < 0.85 else None) if (self.f['templates'] and self.f['member_templates']
                                          and k in ('ctor', 'method', 'static')
                                          and r.random() < self.f.get('member_template_p', 0.2)) else None
             class_params = list(self.scope_params)
@@ -411,6 +414,8 @@ class WildGen:
             scope_funcs = self._funcs[-1]
             fname = r.choice(scope_funcs) if (scope_funcs and r.random() < self.f['overloads']) else \
                 self.member_name(r.random() < 0.3, 'static')
+            if self.f['special_names'] and r.random() < 0.04:
+                fname = 'pickle'      # a *method* of this name is skipped by the MATLAB generator, a function is not
             scope_funcs.append(fname)
             fn = S.Func(fname, self.ret(), self.args(), tmpl)
             self.scope_params = saved
@@ -467,8 +472,24 @@ class WildGen:
                 out.append(S.Namespace(it.name, tuple(sub)))
         return out + later
 
+    def clones(self, items):
+        """a copy of a templated class under another name, next to the original: same parameter names, same lists,
+        same member types (`This` and the class's own name are what differs between the two)."""
+        out = []
+        for it in items:
+            out.append(it)
+            if it.k == 'Namespace':
+                out[-1] = S.Namespace(it.name, tuple(self.clones(list(it.items))))
+            elif it.k == 'Class' and it.template and self.r.random() < self.f['clone_templates']:
+                nm = self.ident(True)
+                mem = tuple(S.Ctor(nm, m.args, m.template) if m.k == 'Ctor' else m for m in it.members)
+                out.append(S.Class(nm, mem, it.template, it.virtual, it.base))
+        return out
+
     def module(self):
         items = [self.item(0) for _ in range(self.r.randint(1, self.k.items))]
+        if self.f['clone_templates']:
+            items = self.clones(items)
         if self.f['reopen_ns']:
             items = self.reopen(items)
         mod = S.Module(tuple(items))
